@@ -115,6 +115,18 @@ fn check(case: &Case) -> CaseResult {
     let bytes = encode_cbor(&a).map_err(|e| format!("encode bundle: {e}"))?;
     let decoded: SecretBundleState = decode_cbor(&bytes[..]).map_err(|e| format!("decode bundle: {e}"))?;
     check_bundle("CBOR round trip", &decoded, &contents)?;
+    // The same contents listed by another encoder (any order is a valid wire form).
+    let mut listed: Vec<GroupSecret> = contents.values().cloned().collect();
+    for (what, order) in [("ascending ids", 0), ("newest first", 1), ("oldest first", 2)] {
+        match order {
+            1 => listed.sort_by(|a, b| (b.timestamp(), b.id()).cmp(&(a.timestamp(), a.id()))),
+            2 => listed.sort_by(|a, b| (a.timestamp(), a.id()).cmp(&(b.timestamp(), b.id()))),
+            _ => {}
+        }
+        let wire = encode_cbor(&listed).map_err(|e| format!("encode secret list: {e}"))?;
+        let foreign: SecretBundleState = decode_cbor(&wire[..]).map_err(|e| format!("decode bundle from a secret list: {e}"))?;
+        check_bundle(&format!("decoded from a secret list ({what})"), &foreign, &contents)?;
+    }
 
     // f: removals, applied to two differently built bundles and to the reference contents.
     let mut contents_after = contents.clone();
@@ -230,7 +242,25 @@ fn check_order(case: &OrderCase) -> CaseResult {
         check_bundle("after insert", &bundle, &contents)?;
     }
     let ordered: Vec<GroupSecret> = case.order.iter().map(|i| secrets[*i].clone()).collect();
-    check_bundle("from_secrets", &SecretBundle::from_secrets(ordered), &contents)?;
+    check_bundle("from_secrets", &SecretBundle::from_secrets(ordered.clone()), &contents)?;
+    // The wire form of a bundle is a list of secrets in *no particular order* (the encoder walks a
+    // hash map; an older peer, a persisted state or a welcome may list them in any order): decoding
+    // the list in this case's order must give the same latest, and a secret generated from the
+    // decoded bundle must be later than everything in it.
+    let wire = encode_cbor(&ordered).map_err(|e| format!("encode secret list: {e}"))?;
+    let decoded: SecretBundleState = decode_cbor(&wire[..]).map_err(|e| format!("decode bundle from a secret list: {e}"))?;
+    check_bundle("decoded from a list in this order", &decoded, &contents)?;
+    if let Some(latest) = reference_latest(&contents) {
+        let rng = Rng::from_seed(seed32(case.order.len() as u64, 0x36B));
+        let fresh = SecretBundle::generate(&decoded, &rng).map_err(|e| format!("generate failed: {e}"))?;
+        ensure!(
+            fresh.timestamp() > latest.timestamp(),
+            "generate on a bundle decoded from a list in order {:?}: new secret has timestamp {} which is not later than the latest's {}",
+            case.order,
+            fresh.timestamp(),
+            latest.timestamp()
+        );
+    }
     let max_ts = case.timestamps.iter().max().copied();
     let tie = max_ts.map(|m| case.timestamps.iter().filter(|t| **t == m).count() >= 2).unwrap_or(false);
     Ok(CaseOk::nontrivial(tie).label_if(tie, "tie_at_max_timestamp"))
